@@ -17,11 +17,15 @@ COQ = coqrun.COQ
 
 
 def load_known():
-    path = os.path.join(VERIF, 'known_findings.json')
-    if not os.path.exists(path):
-        return []
-    with open(path) as f:
-        return json.load(f)['findings']
+    res = []
+    paths = [os.path.join(VERIF, 'known_findings.json')]
+    if os.environ.get('VERIF_FINDINGS'):      # development aid only (not used by registered commands)
+        paths.append(os.path.join(VERIF, os.environ['VERIF_FINDINGS']))
+    for path in paths:
+        if os.path.exists(path):
+            with open(path) as f:
+                res.extend(json.load(f)['findings'])
+    return res
 
 
 def _worker(args):
